@@ -162,6 +162,22 @@ def stepPure (toks : List String) : Option String :=
       let tl ← (if tlv == "-" then some [] else parseHex tlv.toList)
       let m : MintIn := { token2022 := p22, native := native, freeze := freeze, tlv := tl, badge := badge }
       pure (match initializeRewardIx (ver == 2) auth (min idx 255) ninit m with | .ok i => s!"ok {i}" | .error e => "err " ++ e)
+  | ["xini", "cext", auth, pre] => do
+      let auth ← auth.toNat?; let pre ← b01 pre
+      pure (match initializeConfigExtensionIx auth pre with | .ok _ => "ok" | .error e => "err " ++ e)
+  | ["xini", "badge", auth, feat, pre, ext] => do
+      let auth ← auth.toNat?; let feat ← b01 feat; let pre ← b01 pre; let ext ← b01 ext
+      pure (match initializeTokenBadgeIx auth feat pre ext with | .ok _ => "ok" | .error e => "err " ++ e)
+  | ["xini", "dbadge", auth, feat, present] => do
+      let auth ← auth.toNat?; let feat ← b01 feat; let present ← b01 present
+      pure (match deleteTokenBadgeIx auth feat present with | .ok _ => "ok" | .error e => "err " ++ e)
+  | ["xini", "pool1", ts, tierTs, price, order, fee, proto, pa, pb] => do
+      let ts ← ts.toNat?; let tierTs ← tierTs.toNat?; let price ← price.toNat?; let order ← order.toNat?
+      let fee ← fee.toNat?; let proto ← proto.toNat?; let pa ← b01 pa; let pb ← b01 pb
+      let pb := if order = 2 then pa else pb
+      pure (match initializePoolV1 (if order = 1 then 2 else 1) (if order = 0 then 2 else 1) pa pb price ts tierTs fee proto with
+        | .ok p => s!"ok {p.feeRate} {p.protoRate} {p.price} {p.tick}"
+        | .error e => "err " ++ e)
   | ["mdr", n0, n1, d, up] => do
       let n0 ← n0.toNat?; let n1 ← n1.toNat?; let d ← d.toNat?; let up ← b01 up
       pure (showR ((checkedMulDivRoundUpIf n0 n1 d up).map toString))
